@@ -1256,7 +1256,7 @@ def explore_c02(ctx, res, replay_ops=None):
             # usage that does not fit the session's record must continue in a new record: merged into the old one it makes
             # a record the file's 16-bit length field cannot describe, and a reader loses every container of the file
             mm = re.search(r"^st=(\d+) pre=(-?\d+) chg=(-?\d+) .* recs=(\S+)", im)
-            if mm and tt[1] in ("update", "fit", "fiton"):
+            if mm and tt[1] in ("update", "fit", "fiton", "fitbare"):
                 pre, chg = int(mm.group(2)), int(mm.group(3))
                 sizes = [len(x) // 2 for x in mm.group(4).split(";")] if mm.group(4) != "-" else []
                 before = prev_sizes.get(sub, [])
@@ -1912,7 +1912,7 @@ def explore_c03(ctx, res, replay_ops=None):
                 if v.get("member") != "ok":
                     res.violation("oracle", "C03: a record payload of the written file is not the encoding of any record the subscriber context holds (%s)" % v.get("member"),
                                   replay + ["# verdict: " + verdict[i]])
-        elif kind in ("update", "fit", "fiton", "release") and d.get("st") in ("200", "204"):
+        elif kind in ("update", "fit", "fiton", "fitbare", "release") and d.get("st") in ("200", "204"):
             res.violation("oracle", "C03: a successful %s wrote no CDR file" % kind, replay + ["# impl: " + im[:200]])
         prevs[sub] = sizes
     # --- the records' octets and the guard's decisions against the record encoder model (Model/RecordBer.lean)
